@@ -52,6 +52,7 @@ FLAVOURS = {
     "os": ("gcc", "-Os -g", ""),
     "v2": ("gcc", "-O2 -g -march=x86-64-v2", ""),
     "so-ndebug": ("gcc", "-O2 -g -fPIC -DPIC -DNDEBUG", ""),
+    "so-uchar": ("gcc", "-O2 -g -fPIC -DPIC -funsigned-char", ""),
     "so-asan": ("gcc", "-O1 -g -fno-omit-frame-pointer -fPIC -DPIC "
                 "-fsanitize=address,undefined -fno-sanitize-recover=all",
                 "-fsanitize=address,undefined"),
